@@ -69,6 +69,18 @@ struct vm_abi_ilp64
   static constexpr const char* name = "ilp64";
 };
 
+// a guest that carries int and long in words of the host's width but of the OTHER signedness
+// (wasm2c-style u32 / u64 words): same width does not mean same type
+struct vm_abi_uword
+{
+  using T_LongLongType = int64_t;
+  using T_LongType = uint64_t;
+  using T_IntType = uint32_t;
+  using T_PointerType = uint32_t;
+  using T_ShortType = int16_t;
+  static constexpr const char* name = "uword";
+};
+
 // One exported guest function: host address of the guest-ABI implementation.
 struct vm_export
 {
